@@ -414,9 +414,9 @@ def _tv_prim_cases(rng, tier):
         m = [[rng.randrange(4), rng.randrange(4)] for _ in range(k)]
         mt = [tuple(x) for x in m]
         yield Case("pytv.pairsSize", [m], lambda mt=mt: int(np.array(mt).size), tag=tag, info=dict(info, m=m))
+        yield Case("pytv.pcol0", [m], lambda mt=mt: [int(x) for x in np.array(mt)[:, 0]], tag=tag, info=dict(info, m=m))
+        yield Case("pytv.pcol1", [m], lambda mt=mt: [int(x) for x in np.array(mt)[:, 1]], tag=tag, info=dict(info, m=m))
         if k:
-            yield Case("pytv.pcol0", [m], lambda mt=mt: [int(x) for x in np.array(mt)[:, 0]], tag=tag, info=dict(info, m=m))
-            yield Case("pytv.pcol1", [m], lambda mt=mt: [int(x) for x in np.array(mt)[:, 1]], tag=tag, info=dict(info, m=m))
             idx = [x[0] for x in m]
             yield Case("pytv.take", [a, idx], lambda a=a, idx=idx: arr(a)[np.array(idx)], tag=tag, info=dict(info, idx=idx))
             mask = [rng.random() < 0.5 for _ in range(rng.choice([k, k, k, k + 1, max(k - 1, 0)]))]
@@ -458,8 +458,11 @@ def suite_gen_trvel(rng, tier, shard, nshards):
     import mir_eval.transcription as _T
     import mir_eval.transcription_velocity as _TV
     import numpy as np
-    for _ in range(30 if tier == "quick" else 600):
-        lat, p, ref, est = TRS.instance(rng)
+    # (first a crafted pair whose offsets differ by 7/32 of the reference duration: a hit for any offset_ratio default
+    # >= 0.21875 only; the hand model with the DOCUMENTED defaults is asked as well, so that a changed default is an input)
+    crafted = (32, dict(TRS.DEFAULTS), [[_Fr(0), _Fr(1), _Fr(60)]], [[_Fr(0), _Fr(39, 32), _Fr(60)]])
+    for it in range(60 if tier == "quick" else 600):
+        lat, p, ref, est = crafted if it == 0 else TRS.instance(rng)
         ri, rp, ei, ep = TRS.m_ivals(ref), TRS.m_pitches(ref), TRS.m_ivals(est), TRS.m_pitches(est)
         for none_ratio in (False, True):
             kw = {"offset_ratio": None} if none_ratio else {}
@@ -470,14 +473,26 @@ def suite_gen_trvel(rng, tier, shard, nshards):
                            lambda ref=ref, est=est, kw=kw: _T.evaluate(TRS.ivals(ref), TRS.pitches(ref), TRS.ivals(est),
                                                                        TRS.pitches(est), **kw),
                            tag="gen evaluate keywords absent", info=inf, nontrivial=bool(ref and est))
-            if "transcription_velocity.evaluate" in avail and not (ref and est):
-                # (with notes on both sides the velocity margin rule would be needed: the velocity stream below has those)
+            if "transcription_velocity.evaluate" in avail:
+                # constant velocities on both sides: the normalised reference velocities and the (rank-deficient) fit are
+                # exactly 0, so every matched pair passes the default tolerance by a margin of 0.1 — no margin rule needed
                 rv = [_Fr(64)] * len(ref)
                 ev = [_Fr(64)] * len(est)
                 yield Case("gen.trvel", ["transcription_velocity.evaluate", ri, rp, rv, ei, ep, ev] + kws + ["absent", "absent"],
                            lambda ref=ref, est=est, rv=rv, ev=ev, kw=kw: _TV.evaluate(
                                TRS.ivals(ref), TRS.pitches(ref), TRS.farr(rv), TRS.ivals(est), TRS.pitches(est), TRS.farr(ev), **kw),
                            tag="gen velocity evaluate keywords absent", info=dict(inf, fn="transcription_velocity.evaluate"))
+            dflt = dict(TRS.DEFAULTS, offset_ratio=None) if none_ratio else dict(TRS.DEFAULTS)
+            yield Case("transcription_velocity.evaluate", [ri, rp, [_Fr(64)] * len(ref), ei, ep, [_Fr(64)] * len(est)]
+                       + TRS.pargs(dflt) + [TRS.VEL_DEFAULT, _Fr(1)],
+                       lambda ref=ref, est=est, kw=kw: _TV.evaluate(
+                           TRS.ivals(ref), TRS.pitches(ref), TRS.farr([64] * len(ref)), TRS.ivals(est), TRS.pitches(est),
+                           TRS.farr([64] * len(est)), **kw),
+                       tag="model velocity evaluate keywords absent", info=dict(inf, op="transcription_velocity.evaluate"))
+            yield Case("transcription.evaluate", [ri, rp, ei, ep] + TRS.pargs(dflt) + [_Fr(1)],
+                       lambda ref=ref, est=est, kw=kw: _T.evaluate(TRS.ivals(ref), TRS.pitches(ref), TRS.ivals(est),
+                                                                   TRS.pitches(est), **kw),
+                       tag="model evaluate keywords absent", info=dict(inf, op="transcription.evaluate"))
     for key in ("transcription.average_overlap_ratio", "transcription.evaluate", "transcription_velocity.scores",
                 "transcription_velocity.validate"):
         for c in TRS.SUITES[key](rng, tier, shard, nshards):
